@@ -255,6 +255,16 @@ class Machine:
                     lv.solver = b
             return
 
+        if op == "pickle_all":
+            # every live solver in ONE pickle: objects shared between them (copy-on-write children of a composite, Z3 solver
+            # handles, caches) are shared between the copies too, and all of them are used afterwards
+            st_, objs = self._call(i, step, lambda: pickle.loads(pickle.dumps([l.solver for l in self.live], -1)), allow_unsat=False)
+            if st_ == "ok":
+                self.res.stats["pickles"] += 1
+                for l, o in zip(self.live, objs, strict=True):
+                    l.solver = o
+            return
+
         if op in ("split", "combine", "merge", "blank_copy"):
             self._algebra(i, step, lv)
             return
@@ -735,7 +745,7 @@ def steps(draw, groups=("core", "maint", "branch"), names=BVVARS, exact_kw=None)
     if "branch" in groups:
         kinds += ["branch"] * (4 if "branch-heavy" in groups else 1)
     if "pickle" in groups:
-        kinds += ["pickle", "pickle"]
+        kinds += ["pickle", "pickle", "pickle_all"]
     if "core-track" in groups:
         kinds += ["add"] * 2 + ["add_contra"] * 4 + ["unsat_core"] * 3
     if "algebra" in groups:
@@ -744,7 +754,7 @@ def steps(draw, groups=("core", "maint", "branch"), names=BVVARS, exact_kw=None)
         kinds += ["split", "combine", "combine", "merge", "merge", "merge", "branch", "branch"]
     k = draw(st.sampled_from(kinds))
     step = {"op": k, "s": s}
-    if exact_kw is not None and k not in ("add", "simplify", "downsize", "z3downsize", "finalize", "branch", "pickle", "unsat_core", "split", "combine", "merge", "blank_copy"):
+    if exact_kw is not None and k not in ("add", "simplify", "downsize", "z3downsize", "finalize", "branch", "pickle", "pickle_all", "unsat_core", "split", "combine", "merge", "blank_copy"):
         step["exact"] = draw(st.sampled_from(exact_kw))
     if k == "add":
         step["cs"] = draw(st.lists(constraints(names), min_size=1, max_size=2))
@@ -762,7 +772,7 @@ def steps(draw, groups=("core", "maint", "branch"), names=BVVARS, exact_kw=None)
         if draw(st.booleans()):
             step["tag"] = draw(st.integers(0, 3))
         return step
-    if k in ("simplify", "downsize", "z3downsize", "finalize", "branch", "split", "blank_copy"):
+    if k in ("simplify", "downsize", "z3downsize", "finalize", "branch", "split", "blank_copy", "pickle_all"):
         return step
     if k == "combine":
         step["others"] = draw(st.lists(st.integers(0, 7), min_size=1, max_size=2))
@@ -968,6 +978,56 @@ def scenario_extras_do_not_stick(draw, exact_kw=None):
             out.append({"op": "sat", "s": t, "extra": []})
     if exact_kw is not None:
         out = [({**s_, "exact": draw(st.sampled_from(exact_kw))} if s_["op"] not in ("add", "branch") else s_) for s_ in out]
+    return out
+
+
+@st.composite
+def scenario_pickle(draw, exact_kw=None):
+    """Pickling at the moments where a frontend holds state that is not in its constraint list: constraints added but not yet
+    checked (possibly already contradictory), a family of branches sharing children copy-on-write pickled together, caches
+    filled by exhaustive queries.  After the unpickle every copy is queried, one of them gets another constraint, and all
+    are queried again."""
+    names = tuple(draw(st.permutations(BVVARS))[:2])
+    x, y = _v(names[0]), _v(names[1])
+    out = []
+    cmpc = lambda v: (draw(st.sampled_from(("ule", "ult", "uge", "ugt", "eq", "ne", "sgt", "slt"))), v, _c(draw(st.sampled_from(CONSTS))))  # noqa: E731
+    for _ in range(draw(st.integers(0, 2))):
+        out.append({"op": "add", "s": 0, "cs": [cmpc(draw(st.sampled_from((x, y))))], "as_list": draw(st.booleans())})
+    if draw(st.booleans()):
+        out.append(draw(st.sampled_from(({"op": "sat", "s": 0, "extra": []}, {"op": "eval", "s": 0, "e": x, "n": 300, "extra": []},
+                                         {"op": "min", "s": 0, "e": y, "signed": False, "extra": []}))))
+    n_br = draw(st.integers(0, 2))
+    for _ in range(n_br):
+        out.append({"op": "branch", "s": draw(st.integers(0, 3))})
+    # adds that nobody has checked when the pickle is taken; often a contradiction within one variable
+    for _ in range(draw(st.integers(0, 2))):
+        v = draw(st.sampled_from((x, y)))
+        k = draw(st.integers(0, 3))
+        if k == 0:
+            cs = [("ugt", v, _c(9)), ("ult", v, _c(3))]
+        elif k == 1:
+            cs = [cmpc(v)]
+        elif k == 2:
+            cs = [(draw(st.sampled_from(ir.BV_CMP)), x, y)]
+        else:
+            cs = [("eq", v, _c(draw(st.sampled_from(CONSTS))))]
+        for c in cs:
+            out.append({"op": "add", "s": draw(st.integers(0, 3)) if n_br else 0, "cs": [c], "as_list": False})
+    out.append(draw(st.sampled_from(({"op": "pickle_all", "s": 0}, {"op": "pickle_all", "s": 0}, {"op": "pickle", "s": draw(st.integers(0, 3)), "keep_original": draw(st.booleans())}))))
+
+    def probes(t):
+        return [{"op": "sat", "s": t, "extra": []}, {"op": "eval", "s": t, "e": x, "n": 300, "extra": []}, {"op": "batch", "s": t, "es": [x, y], "n": 300, "extra": []}]
+
+    order = list(range(n_br + 2))
+    if draw(st.booleans()):
+        for t in order:
+            out += probes(t)[: draw(st.integers(1, 3))]
+    t_add = draw(st.sampled_from(order))
+    out.append({"op": "add", "s": t_add, "cs": [draw(st.one_of(st.just(cmpc(x)), st.just(("ule", ("bvadd", x, y), _c(draw(st.sampled_from(CONSTS))))), constraints(names)))], "as_list": False})
+    for t in order:
+        out += probes(t)
+    if exact_kw is not None:
+        out = [({**s_, "exact": draw(st.sampled_from(exact_kw))} if s_["op"] in ("sat", "eval", "batch", "min") else s_) for s_ in out]
     return out
 
 
